@@ -907,10 +907,12 @@ class CallMixin:
             self.spec_mode = saved
         facts = self.path.assumptions[mark:]
         del self.path.assumptions[mark:]
+        if facts:
+            self.path.assume(z3.ForAll([j], z3.And(facts)))
         rng = z3.And(0 <= j, j < seq.length())
         if which == "all":
-            return VBool(z3.ForAll([j], z3.Implies(z3.And([rng] + conds + facts), body)))
-        return VBool(z3.Exists([j], z3.And([rng] + conds + facts + [body])))
+            return VBool(z3.ForAll([j], z3.Implies(z3.And([rng] + conds), body)))
+        return VBool(z3.Exists([j], z3.And([rng] + conds + [body])))
 
     def spec_quant(self, which, node, env):
         """forall("kind", lambda x: P) / exists(...)"""
@@ -935,9 +937,13 @@ class CallMixin:
         # are valid for every value, so they belong inside the quantifier
         facts = self.path.assumptions[mark:]
         del self.path.assumptions[mark:]
+        if facts:
+            # valid for every value of the bound variables: asserted as universally quantified
+            # axioms (sound whether the quantified formula ends up assumed or to be proved)
+            self.path.assume(z3.ForAll(bound, z3.And(facts)))
         if which == "forall":
-            return VBool(z3.ForAll(bound, z3.Implies(z3.And(facts), body) if facts else body))
-        return VBool(z3.Exists(bound, z3.And(facts + [body]) if facts else body))
+            return VBool(z3.ForAll(bound, body))
+        return VBool(z3.Exists(bound, body))
 
     # ------------------------------------------------------------------ comprehensions
     def ev_ListComp(self, node, env):
